@@ -34,6 +34,8 @@ impl<T: DatabaseConnection> DatabaseManager for T {
         for table in tables.iter() {
             tx.execute(table, [])?;
         }
+        #[cfg(feature = "verif")]
+        crate::verif::crash_point("create_tables:commit");
         tx.commit()
     }
 
